@@ -4,7 +4,7 @@ remainder arms, family, hand-off length); every dot-product kernel stores only t
 destination pointers, reads sources only through the source array, tables only through
 the table pointer, and never reads its (write-only) outputs; every compare is consumed."""
 from common import Report, AnalysisBroken
-import provenance, ecwrap
+import provenance, ecwrap, gftype
 from provenance import base_tag, elem_index
 from asmflow import tag_name
 
@@ -73,4 +73,5 @@ def main(tier):
     check_kernel_stores(rep, 'dot_prod', 'P-EC-STORE', 33)
     provenance.check_undef(rep, {'ec_dot_prod'}, 'EC', 33)
     provenance.check_kwidth(rep, {'ec_dot_prod'}, 'EC', 33)
+    gftype.check(rep, {'ec_dot_prod'}, 'EC', 33)
     return rep.finish()
